@@ -103,6 +103,26 @@ let run_line line =
                  | Done _ -> print_endline "V?"
                  | _ -> print_endline "FUEL"))
        | _ -> print_endline "BADLINE")
+    end else if inp = "FS" then begin
+      (* FS <disk: name=bytes;... or -> TAB <stdin lines | -> TAB <code points of the program text> : run_main_fs, reports the result and the final disk *)
+      (match String.split_on_char '\t' prog with
+       | [dk; sin; text] ->
+           let bytes_of s = if s = "e" then [] else List.map (fun c -> n_of_int (int_of_string c)) (String.split_on_char '.' s) in
+           let disk = if dk = "-" then [] else List.map (fun ent -> match String.split_on_char '=' ent with [nm; bs] -> (cps nm, bytes_of bs) | _ -> failwith "bad disk entry") (String.split_on_char ';' dk) in
+           let lines = if sin = "-" then [] else List.map cps (String.split_on_char '|' sin) in
+           (match parse_text (cps text) with
+            | Inl [a] ->
+                let (o, st) = run_main_fs fuel a lines disk in
+                let res = match o with
+                  | ODone (VStr s) -> "V " ^ pstr s
+                  | ODone _ -> "V?"
+                  | OErr e when (match e.e_vals with [VInt _; VInt n] -> BZ.equal (bz_of_z n) (BZ.of_int 999) | _ -> false) -> "UNMODELLED"
+                  | OErr e -> "E " ^ String.concat "," (List.map (function VInt n -> BZ.to_string (bz_of_z n) | _ -> "?") e.e_vals)
+                  | OLimit -> "LIMIT" | OFuel -> "FUEL" | OStuck _ -> "STUCK" in
+                let show_bytes l = if l = [] then "e" else String.concat "." (List.map (fun c -> string_of_int (int_of_n c)) l) in
+                Printf.printf "%s\tOUT %s\tDISK %s\n" res (pstr st.m_world.w_out) (String.concat ";" (List.map (fun (nm, bs) -> pstr nm ^ "=" ^ show_bytes bs) st.m_world.w_disk))
+            | _ -> print_endline "SKIP")
+       | _ -> print_endline "BADLINE")
     end else if inp = "P" then begin
       match parse_text (cps prog) with
       | Inl asts -> print_endline ("OK " ^ String.concat " | " (List.map ser asts))
